@@ -543,7 +543,7 @@ func ruleD2(c *Ctx, floor int) {
 	if ia := p.FuncNamed("dt.(*Item).Append"); ia != nil {
 		ok := false
 		walkNoLit(ia.Body, func(x ast.Node) bool {
-			if ifs, isIf := x.(*ast.IfStmt); isIf && containsReturn(ifs.Body) && strings.Contains(normGuard(exprStr(ifs.Cond)), "n.stack!=nil") {
+			if ifs, isIf := x.(*ast.IfStmt); isIf && containsReturn(ifs.Body) && fieldNilCmp(ia.Info(), ifs.Cond, "stack", token.NEQ) {
 				ok = true
 			}
 			return true
